@@ -318,12 +318,13 @@ End ProjectRes.
 
 (* ---- bounds.go: boundSimplifier ------------------------------------------------------------------ *)
 (* what is written for a scalar conjunction: predeclared int/uint, or a constraint *)
-Inductive ptok := PInt | PUint | PC (c : sconstr).
+Inductive ptok := PInt | PUint | PRange (lo hi : Z) | PC (c : sconstr).
 
 Definition psat (a : atom) (t : ptok) : bool :=
   match t with
   | PInt => ssat a (SKind KInt)
   | PUint => ssat a (SKind KInt) && ssat a (SGe 0)
+  | PRange lo hi => ssat a (SKind KInt) && ssat a (SGe lo) && ssat a (SLe hi)   (* int8, uint16, ... *)
   | PC c => ssat a c
   end.
 
@@ -367,12 +368,50 @@ Definition bs_fold (cs : list sconstr) : bsimp * list sconstr :=
                           let '(s', used) := bs_add s c in
                           (s', if used then rest else rest ++ [c])) cs (bs_init, []).
 
+(* slices.SortStableFunc(a, cmpLeafNodes) on values without source positions: basic types
+   (typeOrder 1) move in front of bounds (typeOrder 20), otherwise the order is kept *)
+Definition is_kind_c (c : sconstr) : bool := match c with SKind _ => true | _ => false end.
+Definition sort_kinds (cs : list sconstr) : list sconstr :=
+  filter is_kind_c cs ++ filter (fun c => negb (is_kind_c c)) cs.
+
 Definition min_tok (m : bool * Z) : ptok := PC (if fst m then SGe (snd m) else SGt (snd m)).
 Definition max_tok (m : bool * Z) : ptok := PC (if fst m then SLe (snd m) else SLt (snd m)).
 
-(* exporter.value, case *adt.Conjunction with Simplify: b.expr(), falling back to all values
-   when there is no (min, max) pair *)
+(* adt.MatchBuiltinRange (internal/core/adt/builtinrange.go), consulted first by exporter.value:
+   exactly {int, >=lo, <=hi} in any order is a sized integer type, exactly {int, >=0} is uint *)
+Definition int_builtin_ranges : list (Z * Z) :=
+  [(-128, 127); (-32768, 32767); (-2147483648, 2147483647);
+   (-9223372036854775808, 9223372036854775807);
+   (-170141183460469231731687303715884105728, 170141183460469231731687303715884105727);
+   (0, 255); (0, 65535); (0, 4294967295); (0, 18446744073709551615);
+   (0, 340282366920938463463374607431768211455)]%Z.
+
+Record mbr := mkMB { mb_int : bool; mb_lo : option Z; mb_hi : option Z }.
+
+Definition mb_step (st : option mbr) (c : sconstr) : option mbr :=
+  match st with
+  | None => None
+  | Some s =>
+    match c with
+    | SKind KInt => if mb_int s then None else Some (mkMB true (mb_lo s) (mb_hi s))
+    | SGe n => match mb_lo s with Some _ => None | None => Some (mkMB (mb_int s) (Some n) (mb_hi s)) end
+    | SLe n => match mb_hi s with Some _ => None | None => Some (mkMB (mb_int s) (mb_lo s) (Some n)) end
+    | _ => None
+    end
+  end.
+
+Definition match_builtin_range (cs : list sconstr) : option ptok :=
+  match fold_left mb_step cs (Some (mkMB false None None)) with
+  | Some (mkMB true (Some lo) None) => if Z.eqb lo 0 then Some PUint else None
+  | Some (mkMB true (Some lo) (Some hi)) =>
+    if existsb (fun r => Z.eqb (fst r) lo && Z.eqb (snd r) hi) int_builtin_ranges then Some (PRange lo hi) else None
+  | _ => None   (* without int only the float ranges are consulted; no integer pair matches them *)
+  end.
+
+(* exporter.value, case *adt.Conjunction with Simplify: MatchBuiltinRange, then b.expr(), falling
+   back to all values when there is no (min, max) pair *)
 Definition range_rewrite (cs : list sconstr) : list ptok :=
+  match match_builtin_range cs with Some t => [t] | None =>
   let '(s, rest) := bs_fold cs in
   match bs_min s, bs_max s with
   | Some mn, Some mx =>
@@ -382,6 +421,6 @@ Definition range_rewrite (cs : list sconstr) : list ptok :=
           else if Z.eqb (snd mn) 0 && fst mn then [PUint]       (* uint & >=0: the minimum is dropped *)
           else [PUint; min_tok mn]
         else [min_tok mn] in
-    head ++ [max_tok mx] ++ map PC rest
-  | _, _ => map PC cs
-  end.
+    head ++ [max_tok mx] ++ map PC (sort_kinds rest)
+  | _, _ => map PC (sort_kinds cs)
+  end end.
